@@ -63,6 +63,14 @@ class ScriptedRandom:
         return seq[i]
 
 
+_REAL_SERVER = [rpcserver.Server]
+
+
+class _Namespace:
+    def __init__(self, **kw):
+        self.__dict__.update(kw)
+
+
 class _GeventProxy:
     """Stands in for the `gevent` module inside qs.misc so that CallInLoop sleeps on
     the virtual timer heap."""
@@ -136,7 +144,6 @@ class Observer:
 
 
 class QsSim:
-    TIMERS = (("watchdog", 15), ("handletimeouts", 1))  # mirrors Main.run (report only logs)
 
     def __init__(self, data_dir, rng=None, choices=None, observer=None):
         self.data_dir = data_dir
@@ -154,6 +161,7 @@ class QsSim:
         self.hub_errors = []
         self.stopping = False
         self.violation = None
+        self.server = None
         self.counters = {}
         self._install()
         self._start_server()
@@ -170,6 +178,7 @@ class QsSim:
 
     def _uninstall(self):
         jobs.time, jobs.random, misc.gevent = self._saved
+        rpcserver.Server = _REAL_SERVER[0]
         hub = gevent.get_hub()
         if self._saved_handle_error is None:
             hub.__dict__.pop("handle_error", None)
@@ -196,50 +205,70 @@ class QsSim:
 
     # ---- server ----------------------------------------------------------------
     def _start_server(self):
+        """Runs the real qserve.Main.run(): its Handler class, its timer loops and its
+        `finally: savedb()`.  The only thing replaced is rpcserver.Server's constructor and
+        run_forever (which bind and serve a TCP socket); handle_client is the real one."""
         sim = self
-        self.main = qserve.Main(None, None, self.data_dir, None)  # real loaddb()
-        db = self.main.db
 
-        # Built as Main.run builds it; __call__/shutdown only stamp, then delegate.
-        class Handler(rpcserver.RequestHandler, qserve.QPlugin):
-            workq = db.workq
+        class SimServer(_REAL_SERVER[0]):
+            def __init__(fs, port=8080, host="", get_request_handler=None, secret=None, is_allowed=None):
+                fs.port = port
+                fs.host = host
+                fs.secret = secret
+                fs.pool = gevent.pool.Pool(1024, rpcserver.ClientGreenlet)
+                fs.client_count = 0
+                fs.is_allowed = is_allowed if is_allowed is not None else (lambda ip: True)
+                fs.stream_server = _Namespace(socket=_Namespace(getsockname=lambda: ("sim", 14311)))
+                fs.stop = gevent.event.Event()
 
-            def __call__(self, req):
-                sim._on_exec(self.client[0], req)
-                return super().__call__(req)
+                # the Handler class Main.run built; __call__/shutdown only stamp, then delegate
+                class Stamped(get_request_handler):
+                    def __call__(self, req):
+                        sim._on_exec(self.client[0], req)
+                        return super().__call__(req)
 
-            def shutdown(self):
-                sim._on_shutdown(self.client[0])
-                super().shutdown()
+                    def shutdown(self):
+                        sim._on_shutdown(self.client[0])
+                        super().shutdown()
 
-        Handler.db = db
-        self.handler_cls = Handler
+                def make_handler(**kw):
+                    h = Stamped(**kw)
+                    sim.handlers[kw["client"][0].name] = h
+                    return h
+
+                fs.get_request_handler = make_handler
+                sim.server = fs
+
+            def run_forever(fs):
+                fs.stop.wait()
+
+            def log(fs, msg):
+                pass
+
+        rpcserver.Server = SimServer
         self.handlers = {}
-        srv = rpcserver.Server.__new__(rpcserver.Server)  # skip the StreamServer bind
-        srv.port = 0
-        srv.host = ""
-        srv.secret = None
-        srv.pool = gevent.pool.Pool(1024, rpcserver.ClientGreenlet)
-        srv.client_count = 0
-        srv.is_allowed = lambda ip: True
-
-        def get_request_handler(**kw):
-            h = Handler(**kw)
-            sim.handlers[kw["client"][0].name] = h
-            return h
-
-        srv.get_request_handler = get_request_handler
-        srv.log = lambda msg: None
-        self.server = srv
-        self.main.server = srv
-        self.workq = db.workq
+        self.main = qserve.Main(14311, "sim", self.data_dir, set())  # real loaddb()
+        for name in ("report", "watchdog", "handletimeouts"):
+            setattr(self.main, name, self._stamped_timer(name, getattr(self.main, name)))
+        self.workq = self.main.db.workq
+        self.main_greenlet = gevent.spawn(self.main.run)
         self.timer_greenlets = []
-        for name, period in self.TIMERS:
-            fun = self._stamped_timer(name, getattr(self.main, name))
-            self.timer_greenlets.append(gevent.spawn(misc.CallInLoop(period, fun)))
+        gevent.idle()  # Main.run proceeds to run_forever; the timer loops do their first round
+        if getattr(self, "server", None) is None or self.server.stop.is_set():
+            raise HarnessError("qserve.Main.run did not reach run_forever")
+
+    def _stop_server(self):
+        """Graceful stop: run_forever returns, Main.run's finally saves the queue and kills
+        its timer loops."""
+        self.server.stop.set()
+        gevent.idle()
+        if not self.main_greenlet.dead:
+            self.main_greenlet.kill(block=True)
 
     def _stamped_timer(self, name, fun):
         def tick():
+            if self.stopping:
+                return
             self._stamp("tick", name, self.clock.time())
             self._notify(self.observer.on_tick, name, self.clock.time())
             fun()
@@ -377,9 +406,10 @@ class QsSim:
     # ---- restart (C18) ---------------------------------------------------------
     def _kill_all(self):
         gl = [s.greenlet for s in self.socks.values() if s.greenlet is not None and not s.greenlet.dead]
-        gl += [g for g in self.timer_greenlets if not g.dead]
         self.stopping = True
         try:
+            if not self.main_greenlet.dead:
+                self.main_greenlet.kill(block=True)
             gevent.killall(gl, block=True)
             gevent.idle()
         finally:
@@ -387,12 +417,11 @@ class QsSim:
         self.sleepers = []
 
     def restart(self):
-        """What `Main.run` does on the way out and on the way in again: savedb() in the
-        finally of the server loop, process exit (all client greenlets vanish with it),
-        then a new process: loaddb(), new Handler class, new timer loops."""
+        """Stop and start the server process: Main.run's own `finally: savedb()` writes the
+        pickle, the process exits (all client greenlets vanish with it), a new Main loads it."""
         gevent.idle()
-        self.main.savedb()
         live = [n for n in self.conns if self.is_live(n)]
+        self._stop_server()
         self._kill_all()
         self.conns = {}
         self.socks = {}
